@@ -1,5 +1,6 @@
 (* Cache/Snapshot.v — to_snapshot (snapshot.rs), the restore path of
-   builder/mod.rs::build_shared_core, and the slice of the cache a restored
+   builder/mod.rs::build_shared_core (as repaired for finding F-23: restored
+   entries are admitted to their shard's policy), and the slice of the cache a restored
    cache then lives in: insert / insert_with_ttl / peek / fetch / clock /
    run_maintenance with a per-shard LRU policy (janitor.rs:
    perform_shard_maintenance + cleanup_capacity_for_shard).  No proofs here.
@@ -84,6 +85,9 @@ Definition drain_limit : nat := 16.     (* COOPERATIVE_MAINTENANCE_DRAIN_LIMIT *
 Definition admit_all (ws : list kc) (l : lru_list) : lru_list :=
   fold_left (fun l w => ll_push_front (fst w) (snd w) l) ws l.
 
+(* the key/cost pairs of a shard's residents *)
+Definition mkc (m : list entry) : list kc := map (fun e => (ekey e, ecost e)) m.
+
 Definition remove_keys (vs : list N) (m : list entry) : list entry :=
   filter (fun e => negb (mem (ekey e) vs)) m.
 
@@ -147,13 +151,46 @@ Definition restore_shard (n i : nat) (es : list entry) : list entry :=
   fold_left (fun m e => fst (upsert e m))
             (filter (fun e => Nat.eqb (shard_idx n (ekey e)) i) es) [].
 
+(* the policy of shard i after the restore (repaired code, fix of finding F-23):
+   every restored entry is admitted to its shard's policy, in snapshot order,
+   `cache_policy[index].on_admit(&key, cost)`.  LruPolicy::on_admit always
+   answers Admit (push_front), so the Reject branch (entry skipped, its cost
+   not counted) and the AdmitAndEvict branch (victims removed from the restored
+   maps, on_remove, their cost subtracted) of the repaired code are unreachable
+   here.  An unbounded cache has NullPolicy, which tracks nothing. *)
+Definition restore_policy (cap : option N) (n i : nat) (es : list entry) : lru_list :=
+  match cap with
+  | None => []
+  | Some _ => admit_all (mkc (filter (fun e => Nat.eqb (shard_idx n (ekey e)) i) es)) []
+  end.
+
 (* build_shared_core(Some(snapshot)): capacity and shard count come from the
-   snapshot; current_cost = sum of all snapshot costs; fresh policies (nothing
-   is admitted), empty event buffers *)
+   snapshot; current_cost = sum of all snapshot costs; every entry admitted to
+   its policy; empty event buffers; no eviction at restore time even if the
+   snapshot is over capacity (the next maintenance does that); no TTL timer is
+   scheduled for restored entries (there is no timer wheel in this model) *)
 Definition restore (s : snap) (now : N) (ttl tti : option N) : cache :=
   let es := map (entry_of_p now tti) (s_entries s) in
-  mkC (map (fun i => mkSh (restore_shard (s_shards s) i es) [] []) (seq 0 (s_shards s)))
+  mkC (map (fun i => mkSh (restore_shard (s_shards s) i es)
+                          (restore_policy (s_cap s) (s_shards s) i es) [])
+           (seq 0 (s_shards s)))
       (sumN (map pcost (s_entries s))) (s_cap s) ttl tti now.
+
+(* The order of a snapshot's entries is the hash-map order of the original
+   cache, which the model does not know; after the repair it decides the LRU
+   order of the restored policy.  The D1 harness therefore reorders the
+   deserialized snapshot by key before build_from_snapshot (a snapshot is a bag
+   of entries: every reordering is a valid serialized form), and so does the
+   model's op.  The theorems hold for every reordering. *)
+Fixpoint insert_by_key (p : pentry) (l : list pentry) : list pentry :=
+  match l with
+  | [] => [p]
+  | h :: t => if N.leb (pkey p) (pkey h) then p :: h :: t else h :: insert_by_key p t
+  end.
+
+Definition sort_by_key (l : list pentry) : list pentry := fold_right insert_by_key [] l.
+
+Definition reorder (s : snap) : snap := mkSnap (sort_by_key (s_entries s)) (s_cap s) (s_shards s).
 
 (* ------------------------------------------------------------------------ *)
 (** the op language of the D1 tie *)
@@ -167,7 +204,8 @@ Inductive op :=
 | OIter (batch : nat) (d : N) (K : nat)   (* iter_with_batch_size / iter_stream_with_batch_size (batch.max(1));
                                          clock += d after each of the first K calls of next, K*d in total *)
 | OIterSnap                         (* iter_snapshot / iter_snapshot_async *)
-| OSnap (gap : N) (rtti : option N) (* to_snapshot; clock += gap; build_from_snapshot with time_to_idle rtti; continue on the restored cache *)
+| OSnap (gap : N) (rtti : option N) (* to_snapshot; clock += gap; build_from_snapshot (entries reordered by key) with
+                                       time_to_idle rtti; continue on the restored cache *)
 | OMaint                            (* run_maintenance *)
 | OCost.                            (* metrics().current_cost *)
 
@@ -196,7 +234,7 @@ Definition step (c : cache) (o : op) : cache * res :=
       (mkC (set_maps (c_shs c) ms) (c_cost c) (c_cap c) (c_ttl c) (c_tti c) (c_now c), RItems out true)
   | OSnap gap rtti =>
       let s := snapshot c in
-      (restore s (c_now c + gap) None rtti, RSnap (s_entries s))
+      (restore (reorder s) (c_now c + gap) None rtti, RSnap (s_entries s))
   | OMaint => (run_maintenance c, RUnit)
   | OCost => (c, RCost (c_cost c))
   end.
